@@ -265,7 +265,8 @@ def display_image(im, scaling='auto', vert_axis='x', horiz_axis='y',
     if scaling is not None:
         im = np.maximum(im, scaling[0])
         im = np.minimum(im, scaling[1])
-        im = (im-scaling[0])/(scaling[1]-scaling[0])
+        # subtract in floating point: integer images would wrap around
+        im = (im.astype(float)-scaling[0])/(scaling[1]-scaling[0])
     im.attrs = attrs
     im.attrs['_image_scaling'] = scaling
 
